@@ -6,6 +6,7 @@ import (
 	"encoding/binary"
 	"errors"
 	"fmt"
+	"github.com/bytedance/gopkg/cloud/metainfo"
 	"io"
 	"math/rand"
 	"unsafe"
@@ -194,7 +195,9 @@ func genTTHParams(r *rand.Rand) tthParams {
 
 // c06Check runs one parameter set through both encoders and all decoders.
 func c06Check(cs *drv.Case, p tthParams, payloadLen int, sched int) {
-	ctx := context.Background()
+	// the frame is a function of the parameters: whatever the context argument carries (values, metainfo
+	// entries that resemble header keys, a deadline, a cancelled context) must not show in it
+	ctx := c06Context(cs.R)
 	ep := ttheader.EncodeParam{Flags: ttheader.HeaderFlags(p.Flags), SeqID: p.Seq, ProtocolID: ttheader.ProtocolID(p.Proto), IntInfo: p.Int, StrInfo: p.Str}
 	fail := func(check string, msg string, args ...interface{}) {
 		cs.Fail(check, nil, M{"params": p.full(), "payload_len": payloadLen, "message": fmt.Sprintf(msg, args...)})
@@ -647,4 +650,29 @@ func maxInt(a, b int) int {
 		return a
 	}
 	return b
+}
+
+type c06CtxKey string
+
+func c06Context(r *rand.Rand) context.Context {
+	ctx := context.Background()
+	switch r.Intn(5) {
+	case 0:
+		return ctx
+	case 1:
+		ctx = metainfo.WithValue(ctx, "gdpr-token", "from-context")
+		ctx = metainfo.WithPersistentValue(ctx, ref.TokenKey, "persistent-from-context")
+	case 2:
+		ctx = metainfo.WithValue(ctx, ref.TokenKey, "ctx-token")
+		ctx = metainfo.WithValue(ctx, "k", "ctx-v")
+		ctx = context.WithValue(ctx, c06CtxKey("RPC_TRANSIT_gdpr-token"), "plain-value")
+	case 3:
+		c2, cancel := context.WithCancel(ctx)
+		cancel()
+		ctx = metainfo.WithPersistentValue(c2, "isn", "svc-from-context")
+	default:
+		ctx = context.WithValue(ctx, c06CtxKey("seq"), int32(99))
+		ctx = metainfo.WithBackwardValues(ctx)
+	}
+	return ctx
 }
